@@ -53,7 +53,7 @@ def main():
             na.append({'property_id': pid, 'reason': REASONS_PENDING})
     m = {
         'version': 1,
-        'setup_cmd': 'true',
+        'setup_cmd': '/venv/bin/pip install -q --no-index --find-links /opt/veriftools/wheels --target /verif/.deps sympy mpmath || true',
         'hooks': {
             'guard': 'ENSPARA_VERIF',
             'enable': 'none: static analysis reads the source; no hooks or instrumentation exist in /repo',
